@@ -52,6 +52,11 @@ def generate(tier, seed):
             # long forms holding multi-byte characters at arbitrary byte offsets (rendering truncates long entries)
             mb = lambda: "".join(rng.choice(["é", "λ", "ü", "😀", "a", "中", "ß"]) for _ in range(rng.randint(0, 70)))
             core = "(list \"%s\" '%s (progn %s) \"%s\" '(%s))" % (mb(), "sym-" + mb().replace("😀", "x") + "z", core, mb(), " ".join("é%d" % i for i in range(rng.randint(0, 30))))
+        if rng.random() < 0.4:
+            # some calls written with a dotted tail: (tick 3 . nil), (list a . (b)), '(k . v) handed to an operation that fails on it
+            import re as _re
+            core = _re.sub(r"\(tick (\d+)\)", lambda m: ("(tick %s . nil)" % m.group(1)) if rng.random() < 0.3 else m.group(0), core)
+            core = "(list %s (quote (alpha . 1)) . ((quote (b c . d))))" % core
         prog = relayout(rng, core)
         if pre and rng.random() < 0.5: pre = relayout(rng, pre)
         cases.append((pre, prog, rng.choice(["string", "string", "file", "nested"]), rng.random() < 0.5))
